@@ -370,6 +370,40 @@ def rw_c(x: fp.Real, y: fp.Real, z: fp.Real) -> fp.Real:
     return p + q
 
 
+@fp.fpy
+def long_block(xs: list[fp.Real], x: fp.Real, n: fp.Real) -> fp.Real:
+    # a block of more than ten statements with sites at one-digit and two-digit positions, both arms of an `if`
+    a = x + 301
+    for e in xs:
+        a = a + e * 302
+    b = leaf(a) + 303
+    c = a * 304
+    d = b - 305
+    w = 306.0
+    while w < n:
+        w = w + 307
+    g = c + d
+    h = g * 308
+    k = h - 309
+    m = k + 310
+    for e2 in xs:
+        m = m + e2 * 311
+    p = mid(m) + 312
+    while w < n:
+        w = w + 313
+    for _q in range(4):
+        p = p + 314
+    if p > 315:
+        for _r in range(2):
+            p = p + leaf(x) * 316
+    else:
+        for _s in range(2):
+            p = p - mid(x) * 317
+    r = leaf(p) - 318
+    return r + w
+
+
+ROOTS.append('long_block')
 ROOTS.append('rw_a')
 ROOTS.append('rw_c')
 ROOTS.append('rw_b')
